@@ -28,6 +28,8 @@ type Ledger struct {
 	// calls without a contract (result unconstrained, heap havocked) that each function already made on
 	// the unchanged tree; a call of this kind that appears later is new code the contracts do not cover
 	Unmodelled map[string][]string `json:"unmodelled,omitempty"`
+	// package-level variables each function already read on the unchanged tree
+	Globals map[string][]string `json:"globals_read,omitempty"`
 }
 
 type KnownFinding struct {
@@ -239,7 +241,14 @@ func runProperty(eng *Engine, verifDir, prop, tier string, updateLedger, verbose
 			}
 		}
 		ledger.Unmodelled = um
-		lb, _ := json.MarshalIndent(Ledger{Property: prop, Obligations: ok, Unmodelled: um}, "", " ")
+		gl := map[string][]string{}
+		for _, fv := range fvs {
+			if len(fv.globalsRead) > 0 {
+				gl[fv.short] = sortedKeys(fv.globalsRead)
+			}
+		}
+		ledger.Globals = gl
+		lb, _ := json.MarshalIndent(Ledger{Property: prop, Obligations: ok, Unmodelled: um, Globals: gl}, "", " ")
 		os.WriteFile(ledgerPath, append(lb, '\n'), 0o644)
 		fmt.Printf("ledger %s: %d obligations\n", ledgerPath, len(ok))
 		inLedger = map[string]bool{}
@@ -270,12 +279,16 @@ func runProperty(eng *Engine, verifDir, prop, tier string, updateLedger, verbose
 			continue
 		}
 		if st != "unsat" {
-			// a package-level variable that no contract speaks about (introduced by the change): its
+			// a package-level variable that the function did not read on the unchanged tree and that no contract speaks about: its
 			// value is opaque to the verifier, failures of the function that reads it say "needs a
 			// contract", not "is wrong"
 			var opaque []string
+			wasRead := map[string]bool{}
+			for _, k := range ledger.Globals[g.FV.short] {
+				wasRead[k] = true
+			}
 			for _, gname := range sortedKeys(g.FV.globalsRead) {
-				if !eng.specMentions(gname) {
+				if !wasRead[gname] && !eng.specMentions(gname) {
 					opaque = append(opaque, gname)
 				}
 			}
